@@ -1,7 +1,7 @@
 // C16-P1: the block-buffered stream of the grammar-pool serialiser (real XSerializeEngine insertion/extraction operators, alignment,
 // checkAndFlushBuffer / checkAndFillBuffer / flushBuffer / fillBuffer).  A store-mode engine with a 16-byte block writes a symbolic script
 // of K items (each XMLByte / XMLCh / int / unsigned int / unsigned long / bool, symbolic values) into a collecting stream; a load-mode
-// engine over exactly those bytes reads the same script.  Every value read equals the value written, both sides use the same number
+// engine over exactly those bytes reads the same script; the script starts at an ARBITRARY cursor position of the first block (PRE leading bytes).  Every value read equals the value written, both sides use the same number
 // of blocks, the cursor never leaves [fBufStart, fBufEnd], for EVERY script - so every block-boundary / alignment combination.
 #include "vx.h"
 #include "vx_open.h"
@@ -45,7 +45,10 @@ extern "C" void harness_engine(void) {
   XSerializeEngine* S = &se.obj; XSerializeEngine* L = &le.obj;
   setup(S, XSerializeEngine::mode_Store, sbuf, pool, 0, &out);
   unsigned kind[K]; unsigned long val[K]; bool threw = false;
+  // arbitrary cursor position inside the first block when the script starts: PRE single bytes are written first
+  unsigned pre = nondet_u8(); VX_ASSUME(pre < BLK);
   try {
+    for (unsigned i = 0; i < BLK; i++) if (i < pre) *S << (XMLByte)(0x40 + i);
     for (int i = 0; i < K; i++) {
       kind[i] = nondet_u8() % 6; val[i] = nondet_u64();
       switch (kind[i]) {
@@ -66,6 +69,7 @@ extern "C" void harness_engine(void) {
   bool threw2 = false;
   try {
     L->fillBuffer();
+    for (unsigned i = 0; i < BLK; i++) if (i < pre) { XMLByte v; *L >> v; VX_ASSERT(v == (XMLByte)(0x40 + i), "leading byte read back"); }
     for (int i = 0; i < K; i++) {
       switch (kind[i]) {
         case 0: { XMLByte v; *L >> v; VX_ASSERT(v == (XMLByte)val[i], "XMLByte read back equals the value written"); break; }
@@ -82,4 +86,53 @@ extern "C" void harness_engine(void) {
   VX_ASSERT(L->fBufCount == sblocks, "both sides use the same number of blocks");
   if (sblocks >= 2) VX_REACH("script crossed a block boundary");
   if (kind[0] == 0 && kind[1] == 4) VX_REACH("alignment padding after a byte");
+  if (pre == 13 && kind[0] == 2) VX_REACH("aligned item that does not fit behind a misaligned cursor at the block end");
+}
+
+// C16-P2: raw byte runs (XSerializeEngine::write(const XMLByte*, len) / read(XMLByte*, len), the path every string and every array of the
+// grammar serialisation takes): PRE single bytes, then a run of LEN symbolic bytes, then a marker byte and an unsigned int.  For EVERY
+// PRE < block size and LEN <= RAWMAX (so every position of the run relative to the block boundaries, including runs that end exactly on
+// a boundary and runs spanning whole blocks) the load side gets back the same run AND the items that follow it.
+#ifndef RAWMAX
+#define RAWMAX 36
+#endif
+extern "C" void harness_engine_raw(void) {
+  VxMM mm;
+  struct PoolLayout { void* vptr; MemoryManager* mgr; bool ign; };
+  static PoolLayout poolr; void* pool = &poolr; poolr.mgr = &mm;
+  static VxRaw<XSerializeEngine> se, le;
+  alignas(8) static XMLByte sbuf[BLK], lbuf[BLK];
+  OutS out; InS in;
+  XSerializeEngine* S = &se.obj; XSerializeEngine* L = &le.obj;
+  setup(S, XSerializeEngine::mode_Store, sbuf, pool, 0, &out);
+  unsigned pre = nondet_u8(); VX_ASSUME(pre < BLK);
+  XMLSize_t len = nondet_u64(); VX_ASSUME(len <= RAWMAX);
+  static XMLByte data[RAWMAX], back[RAWMAX]; for (int i = 0; i < RAWMAX; i++) data[i] = nondet_u8();
+  XMLByte marker = nondet_u8(); unsigned int tail = nondet_u32();
+  bool threw = false;
+  try {
+    for (unsigned i = 0; i < BLK; i++) if (i < pre) *S << (XMLByte)(0x40 + i);
+    S->write(data, len);
+    VX_ASSERT(S->fBufCur >= S->fBufStart && S->fBufCur <= S->fBufEnd, "store cursor stays inside the block");
+    *S << marker; *S << tail;
+    S->flush();
+  } catch (const XMLException&) { threw = true; }
+  VX_ASSERT(!threw && !g_badwrite, "storing never fails and always flushes whole blocks");
+  unsigned long sblocks = S->fBufCount;
+  setup(L, XSerializeEngine::mode_Load, lbuf, pool, &in, 0);
+  bool threw2 = false;
+  try {
+    L->fillBuffer();
+    for (unsigned i = 0; i < BLK; i++) if (i < pre) { XMLByte v; *L >> v; VX_ASSERT(v == (XMLByte)(0x40 + i), "leading byte read back"); }
+    L->read(back, len);
+    VX_ASSERT(L->fBufCur >= L->fBufStart && L->fBufCur <= L->fBufLoadMax, "load cursor stays inside the loaded block");
+    for (XMLSize_t i = 0; i < RAWMAX; i++) if (i < len) VX_ASSERT(back[i] == data[i], "byte run read back equals the run written");
+    XMLByte m; *L >> m; VX_ASSERT(m == marker, "the item following a byte run is read back (cursor correct after the run)");
+    unsigned int t; *L >> t; VX_ASSERT(t == tail, "the aligned item following a byte run is read back");
+  } catch (const XMLException&) { threw2 = true; }
+  VX_ASSERT(!threw2, "loading what was stored never fails");
+  VX_ASSERT(L->fBufCount == sblocks, "both sides use the same number of blocks");
+  if (len > 0 && (pre + len) % BLK == 0) VX_REACH("run ends exactly on a block boundary");
+  if (len >= BLK + 2 && pre + len >= 2 * BLK + 1) VX_REACH("run spans a whole block");
+  if (pre + len < BLK) VX_REACH("run inside the first block");
 }
